@@ -241,6 +241,18 @@ def kill_chain(F, rec, key_prefix):
         rec.need(ok and kcalls, key_prefix + 'run-without-killreq/' + F.owner_fn(rf).path, rf, bb,
                  'a path from the end of the peer event loop to the end of the task does not send '
                  'PeerCmd::KillReq: the manager never learns that this peer is gone')
+    # (a2) KillReq is delivered with an awaited send: a full queue delays the dying task, it does not lose the request
+    for kp in kill_req_paths:
+        for g in [F.body(kp)] + [F.fns[c] for c in F.children(kp)]:
+            if g is None:
+                continue
+            for b2 in mirq.real_calls(g):
+                t = g.blocks[b2]['t']
+                cal = t.get('callee') or ''
+                if 'commands::PeerCmd' in ''.join(t.get('gargs') or []) and re.search(r'mpsc::(bounded::)?Sender::<T>::(try_send|send_timeout|blocking_send)$', cal):
+                    rec.violation(key_prefix + 'killreq-may-be-dropped/' + kp, g, b2,
+                                  'KillReq is sent with %s: when the manager\'s queue is full the request is lost, the peer is never removed '
+                                  'and its reservation never released' % cal.split('::')[-1])
     # (b) manager: KillReq arm -> handler that calls the peer remover
     pf, psbs = peer_cmd_dispatch(F)
     tgt, region = arm_region(pf, psbs[0], 'KillReq')
